@@ -7,6 +7,7 @@ import s1
 import tools
 import world
 from framework import Issue
+import fam_close_busy
 from tools import run_async
 from world import Interrupt, Item, Susp, asyncstdlib, drive, exc_name
 
@@ -95,6 +96,9 @@ def cases(tier, rng):
         yield {"family": "scenario", "tool": name, "srcs": [], "params": {}}
     for name in sorted(CONC):
         yield {"family": "conc", "tool": name, "srcs": [], "params": {}}
+    # a handle closed by one task while another task is inside it, every schedule (Machines/CloseBusy.lean)
+    for case in fam_close_busy.cases(4 if tier == "quick" else 7):
+        yield dict(case, tool="closebusy-" + case["real"], srcs=[], params={})
     k = 0
     for case in s1.base_cases(tier, rng, ["agen", "aobj", "iter", "list", "aobj_nc"], s1.cons_exhaust, maxlen=L):
         if case["tool"] == "islice" and (case["params"].get("step", 1) > 1 or (case["params"].get("stop") or 0) > 2):
@@ -740,7 +744,10 @@ def observe(case):
         return {"stdout": p.stdout.strip(), "stderr": p.stderr.strip()[-600:], "tokens": [], "throws": [], "log_issues": [],
                 "async": {"out": ["returned", ["n"]], "vis": []}}
     with _Tripwire():
-        if fam == "scenario":
+        if fam == "closebusy":
+            obs = dict(fam_close_busy.observe(case), tokens=[1] if case["sched"] else [], throws=[], log_issues=[],
+                       **{"async": {"out": ["returned", ["n"]], "vis": []}})
+        elif fam == "scenario":
             obs = _observe_scenario(case)
         elif fam == "conc":
             obs = _observe_conc(case)
@@ -752,6 +759,8 @@ def observe(case):
 def model_request(case):
     # (nlargest/nsmallest: the bounded-heap algorithm is modelled since Std/Select.lean, including the extra poll of an
     # exhausted source when 0 < len < n, so their token sequence is predicted like everyone else's)
+    if case.get("family") == "closebusy":
+        return fam_close_busy.model_request(case)
     if case.get("family") != "tool" or case["tool"] in s1.NO_MODEL:
         return None
     return tools.model_request(case)
@@ -784,6 +793,8 @@ def judge(case, obs, model):
         if not obs["stdout"].startswith("OK"):
             issues.append(Issue("oracle", obs, "touches-asyncio-loop-or-suspends"))
         return issues
+    if fam == "closebusy":
+        return fam_close_busy.judge(case, obs, model)
     for tag, detail in obs["log_issues"]:
         issues.append(Issue("oracle", detail, "%s:%s" % (tag, name)))
     if fam == "scenario" and obs.get("exc") is not None:
